@@ -26,6 +26,8 @@ INPLACE_BY_CONTRACT = {
     ("cnfgen.graphs", "add_random_missing_edges"): "documented: 'Add m random missing edges to G' (graph option addedges)",
     ("cnfgen.graphs", "split_random_edges"): "documented: splits edges of G in place (graph option splitedges)",
 }
+INPLACE_FUNCS = {"random.shuffle", "shuffle", "heapq.heapify", "heapify", "heapq.heappush", "heapq.heappop", "bisect.insort", "insort",
+                 "networkx.set_node_attributes", "networkx.set_edge_attributes", "networkx.add_path", "networkx.add_cycle", "networkx.add_star"}
 FRESH_CALLS = {"list", "sorted", "tuple", "set", "dict", "copy", "deepcopy", "copy.copy", "copy.deepcopy", "frozenset"}
 ALIAS_CALLS = {"normalize"}      # X.normalize(p, ..) returns p itself when it already has the right type
 
@@ -155,6 +157,17 @@ def find_mutations(fi, pname):
                         base = base.value
                     if isinstance(base, ast.Name) and base.id in aliases:
                         hits.append((base.id, "%s.%s()" % (src(recv), c.func.attr)))
+            # library functions that work in place on their argument
+            for c in [n for n in ast.walk(s) if isinstance(n, ast.Call)]:
+                cn = call_name(c) or ""
+                first = c.args[0] if c.args else None
+                if isinstance(first, ast.Name) and first.id in aliases:
+                    inplace_kw = [k for k in c.keywords if (k.arg == "copy" and isinstance(k.value, ast.Constant) and k.value.value is False)
+                                  or (k.arg == "inplace" and isinstance(k.value, ast.Constant) and k.value.value is True)]
+                    if inplace_kw:
+                        hits.append((first.id, "%s(.., %s=%s) works in place" % (cn, inplace_kw[0].arg, inplace_kw[0].value.value)))
+                    elif cn in INPLACE_FUNCS:
+                        hits.append((first.id, "%s() works in place" % cn))
         targets = []
         if isinstance(s, ast.Assign):
             for t in s.targets:
